@@ -1,4 +1,147 @@
-/- C19 — property theorems (under construction). -/
-import Lmd.Sync
+/-
+  C19 — export followed by import reproduces the cache.
+
+  The export writes every exportable cell of a cached row as `valJson v`
+  (`WriteJSONLocalColumn`); the import reads the file like a backend reply and coerces every value
+  with `coerce` (`NewDataRow` / `UpdateValues`, modelled by `coerceRow`).
+-/
+import Lmd.Lemmas.SyncLemmas
+
 namespace Lmd.C19
+open Lean (Json JsonNumber)
+open Lmd.SyncLemmas
+
+/-! ## 0. a concrete table for the examples -/
+
+def exHosts : Table :=
+  { name := "hosts",
+    cols := [{ name := "name", dtype := .str, storage := .loc },
+             { name := "name_lc", dtype := .str, storage := .loc },
+             { name := "state", dtype := .int, storage := .loc },
+             { name := "latency", dtype := .float, storage := .loc },
+             { name := "contacts", dtype := .strList, storage := .loc },
+             { name := "comments", dtype := .int64List, storage := .loc },
+             { name := "services_with_info", dtype := .ifaceList, storage := .loc },
+             { name := "peer_key", dtype := .str, storage := .virt }],
+    primaryKey := ["name"] }
+
+def exReply : ReplyRow :=
+  [("name", .str "Alpha"), ("state", .num ⟨1, 0⟩), ("latency", .num ⟨125, 2⟩),
+   ("contacts", .arr #[.str "admin", .str "ops"]), ("comments", .arr #[.num ⟨1, 0⟩, .num ⟨300, 0⟩]),
+   ("peer_key", .str "ignored")]
+
+/-! ## 1. one cell -/
+
+/-- `coerce_valJson_roundtrip`: a value that came out of the coercion for a column type survives
+    export and import unchanged — for every column type: texts, int8 and int64 numbers, floats (in
+    the milli representation), string lists, integer lists, service member lists, interface lists,
+    and (trivially, it is never stored) custom variables. -/
+theorem coerce_valJson_roundtrip (t : DataType) (j : Json) :
+    coerce t (valJson (coerce t j)) = coerce t j :=
+  coerce_valJson_coerce t j
+
+/-- the exported form of an int8, of a float and of a string list -/
+theorem valJson_shape (n m : Int) (l : List String) :
+    valJson (.i n) = .num ⟨n, 0⟩ ∧ valJson (.f m) = .num ⟨m, 3⟩ ∧
+    valJson (.sl l) = .arr (l.map Json.str).toArray := ⟨rfl, rfl, rfl⟩
+
+/-- The ingredients: `checkInt8Bounds` is idempotent, an integer written as a JSON number is read
+    back exactly, and a float written with three fraction digits is read back exactly. -/
+theorem number_roundtrip (n m : Int) :
+    checkInt8 (checkInt8 n) = checkInt8 n ∧
+    milliTrunc (jsonToMilli (valJson (.i n))) = n ∧
+    jsonToMilli (valJson (.f m)) = m :=
+  ⟨checkInt8_idem n, int_roundtrip n, jsonNumMilli_milli m⟩
+
+example : coerce .int (valJson (coerce .int (.num ⟨300, 0⟩))) = .i 0 ∧
+    coerce .float (valJson (coerce .float (.num ⟨125, 2⟩))) = .f 1250 := by
+  rw [coerce_valJson_roundtrip, coerce_valJson_roundtrip]
+  constructor
+  · simp [coerce, jsonToMilli, jsonNumMilli, milliTrunc, checkInt8, Int.tdiv]
+  · simp [coerce, jsonToMilli, jsonNumMilli]
+
+/-! ## 2. one row -/
+
+/-- `row_roundtrip`: re-importing the exported cells of a cached row reproduces the row cell by
+    cell (same names, same values, same order), provided every cell belongs to a locally stored
+    column of the table and holds a value that came out of that column's coercion — which is what
+    `coerceRow` and the update functions store. -/
+theorem row_roundtrip (t : Table) (r : Row)
+    (h : ∀ p ∈ r.cells, ∃ c j, t.col? p.1 = some c ∧ c.storage = .loc ∧ p.2 = coerce c.dtype j) :
+    coerceRow t (exported r) = r := by
+  apply coerceRow_exported
+  intro p hp
+  obtain ⟨c, j, hc, hl, hv⟩ := h p hp
+  exact ⟨c, hc, hl, by rw [hv]; exact coerce_valJson_coerce c.dtype j⟩
+
+/-- the exported cells are the `valJson` of the stored cells, name by name -/
+theorem exported_eq (r : Row) : exported r = r.cells.map (fun (n, v) => (n, valJson v)) := rfl
+
+/-- Every row stored by the initial synchronisation satisfies the hypothesis of `row_roundtrip`:
+    exporting and re-importing it gives the same row. -/
+theorem synced_row_roundtrip (t : Table) (reply : ReplyRow) :
+    coerceRow t (exported (coerceRow t reply)) = coerceRow t reply :=
+  row_roundtrip t _ (coerceRow_cells_typed t reply)
+
+/-- Every table stored by the initial synchronisation is reproduced by export + import (the
+    imported rows are sorted by primary key again, which leaves the already sorted rows alone). -/
+theorem synced_table_roundtrip (t : Table) (reply : List ReplyRow) :
+    (syncTable t reply).map (fun r => coerceRow t (exported r)) = syncTable t reply := by
+  refine (List.map_congr_left (fun r hr => ?_)).trans (List.map_id _)
+  obtain ⟨rr, _, rfl⟩ := List.mem_map.mp ((syncTable_perm_rows t reply).mem_iff.mp hr)
+  exact synced_row_roundtrip t rr
+
+/-- The id lists written by `buildIdLists` survive as well: a row whose `comments` cell was
+    replaced by an id list still round-trips, when the table stores `comments` as an integer list. -/
+theorem row_roundtrip_setCell (t : Table) (r : Row) (n : String) (l : List Int)
+    (h : ∀ p ∈ r.cells, ∃ c j, t.col? p.1 = some c ∧ c.storage = .loc ∧ p.2 = coerce c.dtype j)
+    (hn : ∃ c, t.col? n = some c ∧ c.storage = .loc ∧ c.dtype = .int64List) :
+    coerceRow t (exported (r.setCell n (.il l))) = r.setCell n (.il l) := by
+  apply coerceRow_exported
+  intro p hp
+  unfold Row.setCell at hp
+  rcases List.mem_append.mp hp with hp | hp
+  · obtain ⟨c, j, hc, hl, hv⟩ := h p (List.mem_filter.mp hp).1
+    exact ⟨c, hc, hl, by rw [hv]; exact coerce_valJson_coerce c.dtype j⟩
+  · obtain ⟨c, hc, hl, hd⟩ := hn
+    have : p = (n, .il l) := by simpa using hp
+    subst this
+    refine ⟨c, hc, hl, ?_⟩
+    rw [hd]
+    show Val.il (jsonToIntList (.arr (l.map intJson).toArray)) = .il l
+    rw [intList_roundtrip]
+
+/-- a host row with text, int8, float, string list and id list cells (the delivered virtual
+    column is not stored) -/
+example : (coerceRow exHosts exReply).cells.map (·.1) = ["name", "state", "latency", "contacts", "comments"] ∧
+    coerceRow exHosts (exported (coerceRow exHosts exReply)) = coerceRow exHosts exReply :=
+  ⟨by decide, synced_row_roundtrip _ _⟩
+
+/-! ## 3. the lower-case shadow columns -/
+
+/-- `lc_recomputed`, dependence: the value of a `_lc` shadow column is computed from the cell of its
+    base column only. -/
+theorem lc_depends_on_base (t : Table) (r r' : Row) (c base : Column)
+    (hs : hasSuffix c.name "_lc" = true) (hb : t.col? (trimSuffix c.name "_lc") = some base)
+    (h : r.cell? base.name = r'.cell? base.name) : localVal t r c = localVal t r' c :=
+  localVal_lc_congr t r r' c base hs hb h
+
+/-- `lc_recomputed`: the shadow columns are not exported; whatever subset `keep` of the columns is
+    exported, as long as it contains the base column, the shadow column has the same value on the
+    re-imported row as on the original row. -/
+theorem lc_recomputed (t : Table) (r : Row) (c base : Column) (keep : String → Bool)
+    (h : ∀ p ∈ r.cells, ∃ c j, t.col? p.1 = some c ∧ c.storage = .loc ∧ p.2 = coerce c.dtype j)
+    (hs : hasSuffix c.name "_lc" = true) (hb : t.col? (trimSuffix c.name "_lc") = some base)
+    (hk : keep base.name = true) :
+    localVal t (coerceRow t (exported { cells := r.cells.filter (fun p => keep p.1) })) c =
+      localVal t r c := by
+  rw [row_roundtrip t _ (fun p hp => h p (List.mem_filter.mp hp).1)]
+  exact localVal_lc_congr t _ _ c base hs hb (cell?_filter r keep base.name hk)
+
+/-- `name_lc` of the example host is "alpha" before and after the round trip without `name_lc` -/
+example : hasSuffix "name_lc" "_lc" = true ∧
+    exHosts.col? (trimSuffix "name_lc" "_lc") = some { name := "name", dtype := .str, storage := .loc } ∧
+    (localVal exHosts (coerceRow exHosts exReply) { name := "name_lc", dtype := .str, storage := .loc }).asString
+      = "alpha" := by decide
+
 end Lmd.C19
